@@ -78,6 +78,15 @@ class Prop(PropBase):
                 for cls in (CLASSES if not quick else rng.sample(CLASSES, 3)):
                     yield {"op": "call", "ufunc": name, "method": m, "cls": cls, "arr": ["s", "s"] if m == "outer" else ["s"],
                            "out": "none", "dtype": "f8" if REQ[cls] is None or REQ[cls][0] == "float64" else "c16", "dask": False}
+        # chains of in-place operations on one signal (operators and out=self), mixed with a where= mask
+        for _ in range(40 if quick else 1500):
+            cls = rng.choice(CLASSES)
+            cplx = not (REQ[cls] is None or REQ[cls][0] == "float64")
+            pool = ["imul2", "iadd1", "isub_self_half", "neg_out", "square_out", "mul_where", "itruediv4", "conj_out", "add_sig_out"]
+            if not cplx:
+                pool += ["abs_out", "sqrt_abs_out", "maximum_out"]
+            yield {"op": "chain", "cls": cls, "dtype": "c16" if cplx else "f8", "steps": [rng.choice(pool) for _ in range(rng.randint(2, 6))],
+                   "dask": False}
         for cls in CLASSES:
             yield {"op": "call", "ufunc": "matmul", "method": "__call__", "cls": cls, "arr": ["s", "s"], "out": "none",
                    "dtype": "f8" if REQ[cls] is None or REQ[cls][0] == "float64" else "c16", "dask": False}
@@ -117,6 +126,47 @@ class Prop(PropBase):
                                  "copied": bool(not np.shares_memory(y, raw)) if not case["dask"] else True}}
             except Exception as e:
                 return {"err": err_name(e)}
+        if case["op"] == "chain":
+            z = self._mk(case["cls"], case["dtype"], 0, False)
+            other = self._mk(case["cls"], case["dtype"], 1, False)
+            raw = np.array(np.asarray(z.data), copy=True)
+            oraw = np.asarray(other.data)
+            ident, trace = id(z), []
+            rate0, meta0, t0 = z.sample_rate, dict(z.meta), z.start_time
+            mask = (np.arange(raw.size).reshape(raw.shape) % 2 == 0)
+            try:
+                for st in case["steps"]:
+                    if st == "imul2":
+                        z *= 2; raw *= 2
+                    elif st == "iadd1":
+                        z += 1; raw += 1
+                    elif st == "itruediv4":
+                        z /= 4; raw /= 4
+                    elif st == "isub_self_half":
+                        z -= z * 0.5; raw -= raw * 0.5
+                    elif st == "neg_out":
+                        r = np.negative(z, out=z); raw = np.negative(raw, out=raw); trace.append(r is z)
+                    elif st == "square_out":
+                        r = np.square(z, out=z); np.square(raw, out=raw); trace.append(r is z)
+                    elif st == "conj_out":
+                        r = np.conjugate(z, out=z); np.conjugate(raw, out=raw); trace.append(r is z)
+                    elif st == "abs_out":
+                        r = np.absolute(z, out=z); np.absolute(raw, out=raw); trace.append(r is z)
+                    elif st == "sqrt_abs_out":
+                        np.absolute(z, out=z); r = np.sqrt(z, out=z); np.absolute(raw, out=raw); np.sqrt(raw, out=raw); trace.append(r is z)
+                    elif st == "maximum_out":
+                        r = np.maximum(z, 3, out=z); np.maximum(raw, 3, out=raw); trace.append(r is z)
+                    elif st == "mul_where":
+                        r = np.multiply(z, 3, out=z, where=mask); np.multiply(raw, 3, out=raw, where=mask); trace.append(r is z)
+                    elif st == "add_sig_out":
+                        r = np.add(z, other, out=z); np.add(raw, oraw, out=raw); trace.append(r is z)
+                    trace.append(id(z) == ident)
+            except Exception as e:
+                return {"chain_err": err_name(e)}
+            return {"chain": {"values": bool(np.array_equal(np.asarray(z.data), raw, equal_nan=True)), "same_object": bool(all(trace)),
+                              "meta": bool(z.sample_rate == rate0 and z.meta == meta0 and bool(z.start_time == t0)
+                                           and type(z).__name__ == case["cls"]),
+                              "other_untouched": bool(np.array_equal(np.asarray(other.data), oraw))}}
         uf = getattr(np, case["ufunc"])
         ops, desc, sig_ids = [], [], []
         nsig = 0
@@ -271,7 +321,7 @@ class Prop(PropBase):
 
     # ------------------------------------------------------------------ model
     def model_requests(self, case, code):
-        if case["op"] == "conv" or "skip" in code:
+        if case["op"] in ("conv", "chain") or "skip" in code:
             return []
         return [f"c17 call {case['ufunc']} {case['method']} {code['nout']} {','.join(code['desc'])} {code['out_desc']} {code['oks']}"]
 
@@ -307,6 +357,13 @@ class Prop(PropBase):
     # ------------------------------------------------------------------ property oracle
     def spec_violation(self, case, code):
         if "skip" in code:
+            return None
+        if case["op"] == "chain":
+            if "chain_err" in code:
+                return f"a chain of in-place operations {case['steps']} raised {code['chain_err']}"
+            c = code["chain"]
+            if not (c["values"] and c["same_object"] and c["meta"] and c["other_untouched"]):
+                return f"chain of in-place operations {case['steps']} on a {case['cls']}: {c}"
             return None
         if case["op"] == "conv":
             if "err" in code:
@@ -367,6 +424,8 @@ class Prop(PropBase):
         return case
 
     def tags(self, case, code):
+        if case["op"] == "chain":
+            return ["chain"] + ["step:" + s for s in case["steps"]]
         if case["op"] == "conv":
             return ["conv:" + case["how"]]
         t = [case["cls"], "arr:" + "".join(case["arr"]), "method:" + case["method"]]
